@@ -32,8 +32,12 @@ def build(scn):
         pep.add_constraint(t >= 1)
     if scn == "infeasible3":
         lmi_rows = [[t, 0], [0, -1]]
+    if scn == "infeasible4":
+        w = 0
+        pep.add_constraint(w * (x0 - xs) ** 2 >= 1)         # a weight set to zero: the condition is the constant 0 >= 1
     lmi = pep.add_psd_matrix(lmi_rows)
-    pep.set_performance_metric(metric)
+    if scn != "unbounded4":
+        pep.set_performance_metric(metric)
     held.update(leafpoint=x0, derivedpoint=x1, leafexpr=f0, derivedexpr=(x1 - xs) ** 2, constraint=ic if scn != "unbounded2" else (t <= 5),
                 lmi=lmi, metric=metric, zeropoint=0 * x0, zeroexpr=0 * f0, zeroprod=(1 - 1.0) * ((x1 - xs) ** 2))
     if scn == "unbounded2":
